@@ -80,6 +80,11 @@ impl PanicInfo {
         if self.location.contains("/out/main_extract.rs") {
             return "src/main.rs(extracted):0".to_string();
         }
+        if let Some(pos) = self.location.find("/registry/src/") {
+            // dependency: crate-version/path
+            let rest = &self.location[pos + "/registry/src/".len()..];
+            return rest.split_once('/').map(|x| x.1.to_string()).unwrap_or(rest.to_string());
+        }
         self.location.strip_prefix(repo).map(|s| s.trim_start_matches('/').to_string()).unwrap_or(self.location.clone())
     }
     pub fn file(&self) -> String {
